@@ -370,9 +370,19 @@ impl Job {
 
     pub fn set_waiting_state(&mut self, task_id: JobTaskId) {
         let task = self.tasks.get_mut(&task_id).unwrap();
-        assert!(matches!(task.state, JobTaskState::Running { .. }));
-        task.state = JobTaskState::Waiting;
-        self.counters.n_running_tasks -= 1;
+        match task.state {
+            JobTaskState::Running { .. } => {
+                task.state = JobTaskState::Waiting;
+                self.counters.n_running_tasks -= 1;
+            }
+            // The scheduler treats a multi-node task as running on its workers from the moment
+            // it is assigned; its start may not have been reported yet when a worker is lost
+            JobTaskState::Waiting => {}
+            _ => panic!(
+                "Invalid task {task_id} state, expected Running or Waiting, got {:?}",
+                task.state
+            ),
+        }
     }
 
     pub fn set_failed_state(
